@@ -18,7 +18,7 @@ def plain(job, rng, home):
     mode = job.get("mode", "complete")
     outcome = gen.make_outcome(w, rng, mode)
     res = driver.execute(w.flow_text(), outcome, rng.randrange(1 << 30), home, policy=job.get("policy"))
-    return _pack(job["seed"], w, res, {"allcomplete": mode == "complete"})
+    return _pack(job["seed"], w, res, {"allcomplete": mode in ("complete", "complete_failfirst")})
 
 def faults(job, rng, home):
     """Message duplication / delay, arbitrary outcomes."""
